@@ -69,6 +69,19 @@ class DefUse:
                         self.defs.setdefault(pl["l"], []).append(("outarg", b.id, t))
             elif t["k"] == "yield":
                 self.defs.setdefault(t["resume_arg"]["l"], []).append(("yield", b.id, t))
+        # `_t = &mut L; f(move _t, ..)`: the callee may write L as well
+        extra = []
+        for l, ds in self.defs.items():
+            for d in ds:
+                if d[0] == "outarg":
+                    for d2 in self.defs.get(l, []):
+                        if d2[0] == "assign" and d2[3]["rv"]["k"] == "ref" and d2[3]["rv"].get("mut") and not d2[3]["place"]["p"]:
+                            base = d2[3]["rv"]["p"]["l"]
+                            if base != l:
+                                extra.append((base, d))
+        for base, d in extra:
+            if d not in self.defs.setdefault(base, []):
+                self.defs[base].append(d)
         self.is_closure = body.kind == "Closure"
         self.follow_accessors = False
         self.alias_mode = False   # follow only reference-preserving steps (no clone / conversion / out-args)
